@@ -58,16 +58,29 @@ func genTreeNames(t *rapid.T, max int) []string {
 	return out
 }
 
+// genTree draws a tree whose root is almost always a directory.
 func genTree(t *rapid.T, depth, maxKids int) *tnode {
-	if depth == 0 || rapid.IntRange(0, 2).Draw(t, "isfile") == 0 {
-		n := rapid.SampledFrom([]int{0, 1, 5, 12, 13, 30, 60}).Draw(t, "flen")
+	if rapid.IntRange(0, 9).Draw(t, "rootisfile") == 0 {
+		return genSubTree(t, 0, maxKids)
+	}
+	return genSubTree(t, -depth, maxKids)
+}
+
+// genSubTree: depth > 0 may be a file or a directory; depth == 0 is a file; depth < 0 forces a directory of depth -depth.
+func genSubTree(t *rapid.T, depth, maxKids int) *tnode {
+	force := depth < 0
+	if force {
+		depth = -depth
+	}
+	if depth == 0 || (!force && rapid.IntRange(0, 2).Draw(t, "isfile") == 0) {
+		n := rapid.SampledFrom([]int{0, 1, 5, 12, 13, 30, 46, 60, 140}).Draw(t, "flen")
 		return &tnode{Data: lcgBytes(n, rapid.Byte().Draw(t, "tag"), 0)}
 	}
 	nd := &tnode{Dir: true, Kids: map[string]*tnode{}}
 	nd.Sharded = rapid.Bool().Draw(t, "sharded")
 	nd.Fanout = rapid.SampledFrom([]int{8, 8, 16, 256}).Draw(t, "fanout")
 	for _, name := range genTreeNames(t, maxKids) {
-		nd.Kids[name] = genTree(t, depth-1, maxKids)
+		nd.Kids[name] = genSubTree(t, depth-1, maxKids)
 	}
 	return nd
 }
